@@ -15,13 +15,11 @@
     (an iterator value is the list of the items it yields), `Iterator::nth` (default body: `advance_by(n)` then
     `next`, stopping at the first `None`) over a given `next`.
   * `panic!` is an arbitrary value (`default`): the theorems say nothing about inputs that reach it.
-  * NOT REGENERATED, bound to the hand models: `Scanline` (src/primitives/common/scanline.rs: `new_empty`,
-    `Iterator::next`, `bresenham_intersection`), `Line::new`, `line::Points` (`Line::points`, `Points::empty`,
-    `Iterator::next`, the items of a whole iteration), and `ScanlineIntersections`
-    (src/primitives/triangle/scanline_intersections.rs: `new`, `empty`, `Iterator::next`,
-    `reset_with_new_scanline`). The hand model of `ScanlineIntersections::new` covers `StrokeOffset::None` (what
-    `triangle::Points::new` passes): `ScanlineIntersections_new` DROPS its offset argument, the theorems about
-    `ScanlineIterator::new` are stated for `StrokeOffset.None`.
+  * NOT REGENERATED, bound to the hand models: `Scanline` (src/primitives/common/scanline.rs: the struct,
+    `new_empty`, `Iterator::next`, `bresenham_intersection`, `try_take`), `Line::new`, `line::Points` (`Line::points`,
+    `Points::empty`, `Iterator::next`, the items of a whole iteration), and the iterator returned by
+    `ScanlineIntersections::edge_intersections` (thick strokes; yields `None` at once for stroke width 0).
+    `Triangle::is_collapsed` (thick strokes) is an unspecified (`opaque`) function.
 
   Every definition is an `abbrev` (see RectSrcPrelude) except the recursive `iterator_nth`.
 -/
@@ -89,6 +87,10 @@ abbrev option_unwrap_or_else {α : Type} (o : Option α) (f : Unit → α) : α 
   match o with
   | some v => v
   | none => f ()
+abbrev option_unwrap_or {α : Type} (o : Option α) (d : α) : α :=
+  match o with
+  | some v => v
+  | none => d
 abbrev option_or_else {α : Type} (o : Option α) (f : Unit → Option α) : Option α :=
   match o with
   | some v => some v
@@ -131,14 +133,37 @@ abbrev LinePoints_next (it : EG.Line.PointsIt) : Option Point × EG.Line.PointsI
   | none => (none, it)
 /-- the items of a `line::Points` that is consumed at once. -/
 abbrev LinePoints_into_iter (it : EG.Line.PointsIt) : List Point := it.toList
-/-- `ScanlineIntersections::new` (the hand model covers `StrokeOffset::None`; the offset is dropped). -/
-abbrev ScanlineIntersections_new (t : EG.Triangle) (stroke_width : Nat) (_stroke_offset : StrokeOffset)
-    (has_fill : Bool) (scanline_y : Int) : EG.ScanlineIntersections :=
-  ScanlineIntersections.new t stroke_width has_fill scanline_y
-abbrev ScanlineIntersections_empty : EG.ScanlineIntersections := ScanlineIntersections.empty
-abbrev ScanlineIntersections_next (it : EG.ScanlineIntersections) :
-    Option (EG.Scanline × EG.PointType) × EG.ScanlineIntersections := it.next
-abbrev ScanlineIntersections_reset_with_new_scanline (it : EG.ScanlineIntersections) (y : Int) :
-    EG.ScanlineIntersections := it.reset y
+/-- `Scanline { y, x: Range<i32> }` is the hand model's record with the two ends of the range. -/
+abbrev Scanline_mk (y : Int) (x : RangeI32) : EG.Scanline := ⟨y, x.start, x.end_⟩
+abbrev Scanline_y (s : EG.Scanline) : Int := s.y
+abbrev Scanline_x (s : EG.Scanline) : RangeI32 := ⟨s.xs, s.xe⟩
+abbrev Scanline_set_y (s : EG.Scanline) (v : Int) : EG.Scanline := ⟨v, s.xs, s.xe⟩
+abbrev Scanline_set_x (s : EG.Scanline) (v : RangeI32) : EG.Scanline := ⟨s.y, v.start, v.end_⟩
+/-- `Scanline::try_take` (value, scanline after). -/
+abbrev Scanline_try_take (s : EG.Scanline) : Option EG.Scanline × EG.Scanline := s.tryTake
+
+/-- The iterator `ScanlineIntersections::edge_intersections(scanline_y)` returns: a `from_fn` closure over `idx`,
+`left`, `right` (the hand model's `EdgeIt`) that reads `self.triangle`, `self.stroke_width`, `self.stroke_offset`.
+Thick strokes (`LineJoin`, `ThickSegment`) are not regenerated: the hand model is used, which covers stroke widths
+0 and 1 and `StrokeOffset::None` (the offset is carried but not consulted). For stroke width 0 (`points()`) it yields
+`None` at once. -/
+structure EdgeIntersections where
+  triangle : EG.Triangle
+  strokeWidth : Nat
+  strokeOffset : StrokeOffset
+  y : Int
+  st : EG.EdgeIt
+abbrev ScanlineIntersections_edge_intersections (triangle : EG.Triangle) (stroke_width : Nat)
+    (stroke_offset : StrokeOffset) (scanline_y : Int) : EdgeIntersections :=
+  ⟨triangle, stroke_width, stroke_offset, scanline_y, ⟨0, Scanline.newEmpty scanline_y, Scanline.newEmpty scanline_y⟩⟩
+abbrev EdgeIntersections_next (e : EdgeIntersections) : Option EG.Scanline × EdgeIntersections :=
+  ((e.st.next e.strokeWidth (fun idx => e.triangle.skeletonSeg idx e.y) e.y).1,
+   { e with st := (e.st.next e.strokeWidth (fun idx => e.triangle.skeletonSeg idx e.y) e.y).2 })
+/-- `Triangle::is_collapsed(stroke_width, stroke_offset)` (thick strokes; not regenerated and NOT modelled here): an
+unspecified function. `ScanlineIntersections::new` only uses it in `.. && stroke_offset == StrokeOffset::Right`. -/
+opaque Triangle_is_collapsed (t : EG.Triangle) (stroke_width : Nat) (stroke_offset : StrokeOffset) : Bool
+/-- derived `PartialEq` of `StrokeOffset`. -/
+abbrev StrokeOffset_eq (a b : StrokeOffset) : Bool := decide (a = b)
+abbrev StrokeOffset_ne (a b : StrokeOffset) : Bool := decide (a ≠ b)
 
 end EG.TriSrcPrelude
